@@ -77,7 +77,8 @@ def compare(op, ns, exp, got, params):
         if e.shape != g.shape:
             return f"output {k}: shape {g.shape}, NumPy {e.shape}"
         if op.close:
-            ok = np.allclose(g, e, rtol=1e-9, atol=1e-12, equal_nan=True)
+            single = e.dtype in (np.float32, np.complex64) or g.dtype in (np.float32, np.complex64)
+            ok = np.allclose(g, e, rtol=1e-5 if single else 1e-9, atol=1e-6 if single else 1e-12, equal_nan=True)
         else:
             try:
                 ok = np.array_equal(g, e, equal_nan=True)
